@@ -10,7 +10,7 @@ Steps (all in the scratch worktree /var/tmp/mutwt, never in /repo):
   4. write seeded/<name>/{patch.diff,demo.py,notes.md,meta.json}
 """
 import json, os, shutil, subprocess, sys, time
-WT = "/var/tmp/mutwt"
+WT = os.environ.get("VERIF_MUTWT", "/var/tmp/mutwt")
 ROOT = os.path.dirname(os.path.dirname(os.path.abspath(__file__)))
 PY = "/venv/bin/python"
 
